@@ -105,13 +105,18 @@ func StartChild(bin, scratch string) (*Child, error) {
 	cmd.Env = []string{
 		"TERM=xterm", "HOME=" + home, "VISUAL=", "EDITOR=", "PATH=/nonexistent",
 		"VERIF_SCRATCH=" + scratch, "LANG=C.UTF-8", "USER=verif",
-		"GOTRACEBACK=all",
+		"GOTRACEBACK=crash",
 	}
 	if v := os.Getenv("VERIF_CHILD_GORACE"); v != "" {
 		cmd.Env = append(cmd.Env, "GORACE="+v)
 	}
 
-	cmd.SysProcAttr = &syscall.SysProcAttr{Setsid: true, Setctty: true, Ctty: 0}
+	// Own session but NO controlling terminal: the kernel then never sends a
+	// SIGWINCH of its own when the window size is set, so a resize reaches the
+	// child only when a check sends the signal explicitly (C20 owns the schedule;
+	// every other check must not be disturbed by a stray signal whose delivery
+	// time depends on machine load).
+	cmd.SysProcAttr = &syscall.SysProcAttr{Setsid: true}
 
 	if err := cmd.Start(); err != nil {
 		return nil, err
@@ -360,14 +365,15 @@ func ClassifyHang(dump string) string {
 			continue
 		}
 
-		first := strings.SplitN(b, "\n", 2)[0] + "\n" + b + "\n----"
+		head := strings.SplitN(b, "\n", 2)[0]
+		first := head + "\n" + b + "\n----"
 
 		switch {
-		case strings.Contains(first, "chan receive"), strings.Contains(first, "chan send"),
-			strings.Contains(first, "sync.Mutex"), strings.Contains(first, "sync.RWMutex"),
-			strings.Contains(first, "select"), strings.Contains(first, "semacquire"):
+		case strings.Contains(head, "chan receive"), strings.Contains(head, "chan send"),
+			strings.Contains(head, "sync.Mutex"), strings.Contains(head, "sync.RWMutex"),
+			strings.Contains(head, "[select"), strings.Contains(head, "semacquire"):
 			return "deadlock: " + first
-		case strings.Contains(first, "running"), strings.Contains(first, "runnable"):
+		case strings.Contains(head, "running"), strings.Contains(head, "runnable"):
 			return "spin: " + first
 		default:
 			return "blocked: " + first
